@@ -52,6 +52,7 @@ def run(prog: Program, rep: Report, tier: str) -> None:
     from ..api_model import sign_summary_premise, ir_builder_premise
     sign_summary_premise(prog, rep)
     ir_builder_premise(prog, rep)
+    rep.claims_instance_state = "PREMISE-C15"      # tables shared by all remotes (a class-level container mutated through instances) are C15 R15.9's violation, inherited
     rep.rule("R16.1", "merge pairing: each setting passed on is the requested value when given, otherwise the same-role field of the state this very call just read (requested wins; current only when omitted)", 5)
     rep.rule("R16.2", "argument wiring: build_command receives (state, mode, target, fan, swing, current state) bound to the same-named parameters; the status frame carries state, mode, target ({:02x}), fan, swing in the order the state reply defines", 2)
     rep.rule("R16.3", "separate-swing discipline: for remotes with a separate swing command the main command gets swing OFF, a swing frame is written iff swing was requested and this is not update-only, and swing alone does not trigger the main command", 3)
